@@ -32,6 +32,10 @@ class Prop:
     def key(self, case):
         return case.line
 
+    def kernel_pool(self, cases):
+        """the cases from which the in-kernel (vm_compute) cross-check of the extracted model draws its sample"""
+        return cases
+
     def distribution(self, cases):
         return {}
 
@@ -117,7 +121,7 @@ def run_check(prop, tier, seed, replay=None):
     # extraction cross-check inside the kernel
     kernel_checked = 0
     kernel_bad = []
-    pool = [c for c in cases if len(c.line) < 3000]
+    pool = [c for c in prop.kernel_pool(cases) if len(c.line) < 3000]
     sample = rng.sample(pool, min(prop.kernel_sample, len(pool))) if pool else []
     for prof in set(c.profile for c in sample):
         cs = [c for c in sample if c.profile == prof]
